@@ -27,7 +27,8 @@ from collections.abc import MutableMapping
 from contextlib import contextmanager
 from struct import pack, unpack, unpack_from
 
-from .ebpf import AssembleError, Expression, Opcode, Map, FuncId
+from .ebpf import (
+    AssembleError, Expression, Opcode, Map, FuncId, ensure_expression)
 from .bpf import (
     MapType, UpdateFlags, create_map, delete_elem, get_next_key, lookup_elem,
     lookup_and_delete_elem, update_elem)
@@ -94,6 +95,7 @@ class HashGlobalVarDesc:
             update_elem(fd, pack("B", self.count),
                         pack("q" if self.fmt.islower() else "Q", value))
             return
+        value = ensure_expression(ebpf, value)
         with ebpf.save_registers([3]):
             with value.get_address(3, True, True):
                 ebpf.owners.add(3)  # a helper call in between gives it up
